@@ -63,6 +63,10 @@ class FailModel(engine.RealModel):
             elif b in init_broken and variant == 3:
                 # a reference into a linked workbook: fails while the graph is built
                 cells[b] = f"='[1]Sheet1'!A1+({cells[b][1:]})"
+            elif b in init_broken and variant == 4:
+                # a 3-D reference: the formula itself cannot be compiled, which fails
+                # while the graph is built, before any of its precedents is looked at
+                cells[b] = f"=SUM(Sheet1:Sheet3!A1)+({cells[b][1:]})"
             elif b in init_broken:
                 fn = ('NOSUCHFN', 'VFAIL', 'VRECURSE')[(i + variant) % 3]
                 cells[b] = f'={fn}({cells[b][1:]})'
@@ -101,6 +105,10 @@ class FailModel(engine.RealModel):
         try:
             if act['op'] == 'evaluate':
                 return 'ok', self.m.evaluate(W.addr(act['n']))
+            if act['op'] in ('set_value', 'repair') and W.addr(act['n']) not in self.m.cell_map:
+                # a formula which cannot be compiled never brought its precedents
+                # into the model (the specification builds them): do it now
+                self.m.evaluate(W.addr(act['n']))
             if act['op'] == 'set_value':
                 self.m.set_value(W.addr(act['n']), W.py_val(act['v']))
             elif act['op'] == 'repair':
@@ -207,7 +215,7 @@ def job(arg):
             if status == 'raise':
                 out['raised_seen'] += 1
                 ok_family = isinstance(got, (PyCelException, RecursionError)) or (
-                    variant == 3 and isinstance(got, NotImplementedError))
+                    variant in (3, 4) and isinstance(got, NotImplementedError))
                 if mode == 'iterative' and ovr and not depends and ok_family and \
                         needs_broken(prec, n, broken, {}):
                     # DEV_IterOverrideIgnored: the overwritten cell is recomputed
@@ -299,7 +307,7 @@ def job(arg):
             out['violations'].append((
                 f'after {act["op"]}({act.get("n")}) transient state is not clean: {tr} '
                 f'[{name}/{src}/{mode}]', case))
-        if mode == 'plain' and variant != 3 and not drift:
+        if mode == 'plain' and variant not in (3, 4) and not drift:
             proj = model.project()
             diffs = engine.state_matches(st_to, proj)
             if act['op'] == 'evaluate' and (status == 'raise') != bool(act.get('raised')):
@@ -330,7 +338,8 @@ def job(arg):
                     f'after a failing trim_graph on a fresh model, evaluate({node}) returned '
                     f'{got2!r} instead of raising (it depends on {init_broken}) '
                     f'[{name}/{src}/{mode}]', case))
-            elif not isinstance(got2, (PyCelException, RecursionError)):
+            elif not isinstance(got2, (PyCelException, RecursionError)) and not (
+                    variant in (3, 4) and isinstance(got2, NotImplementedError)):
                 out['violations'].append((
                     f'after a failing trim_graph, evaluate({node}) raised '
                     f'{type(got2).__name__} [{name}/{src}/{mode}]', case))
@@ -374,6 +383,8 @@ def run(tier, seed):
             ('aliasf', 'NoData', ['A2'], ['A2'], False, 'plain', P, ['A1'], 0, seed, 0),
             ('trimex', 'NoData', ['C2'], ['C2'], False, 'plain', P, ['A1'], 0, seed, 3),
             ('nested', 'NoData', ['B2'], ['B2'], False, 'plain', P, ['A1'], 0, seed, 3),
+            ('capture', 'NoData', ['B1'], ['B1'], False, 'plain', P, ['A2'], 0, seed, 4),
+            ('trimex', 'NoData', ['C2'], ['C2'], False, 'plain', P, ['A1'], 0, seed, 4),
         ]
     else:
         jobs = []
@@ -382,7 +393,7 @@ def run(tier, seed):
             ins = sorted(W.WORKBOOKS[name]['inputs'])[:1]
             for f in forms:
                 for mode in ('plain', 'iterative'):
-                    for variant in (0, 1, 2, 3):
+                    for variant in (0, 1, 2, 3, 4):
                         jobs.append((name, 'NoData', [f], [f], False, mode, P, ins, 0, seed, variant))
             jobs.append((name, 'NoData', forms[:2], [], True, 'plain', P, ins, 0, seed))
             jobs.append((name, 'NoData', forms[:2], [], True, 'iterative', P, ins, 0, seed))
